@@ -150,6 +150,10 @@ func (hookC10) event(x *fleetExec, e engine.Event) bool {
 		c10BadMerge(x, e)
 		return true
 	}
+	if e.Ev == "marathon" {
+		c10Marathon(x, e)
+		return true
+	}
 	if e.Ev != "badadd" {
 		return false
 	}
@@ -175,6 +179,88 @@ func (hookC10) event(x *fleetExec, e engine.Event) bool {
 	x.st.ProbeIf(w == 0, "weightless-value-offered")
 	c10Check(x, e, nd)
 	return true
+}
+
+// marathon N I S V : a long chain on a copy of node N: I times "take a snapshot (S = copy), ship
+// the state (S = wire: encode, decode, continue with the decoded sketch) or receive a one-value sketch
+// (S = merge), and absorb the value V". Afterwards the exact sum must still be within the stated few
+// ulps of the total of |value*weight|, the count exact, the extremes exact. Node N itself is untouched.
+func c10Marathon(x *fleetExec, e engine.Event) {
+	nd := x.nodes[e.N]
+	k, mode, v := int(e.I), e.S, float64(e.V)
+	if nd == nil || nd.dirty || nd.tainted || !nd.exact() || nd.model.SumOverflow || k < 10 || k > 8000 {
+		return
+	}
+	if !(v > nd.mapping.MinIndexableValue()*1e3 && v < nd.mapping.MaxIndexableValue()/1e3 && v < 1e200) {
+		return
+	}
+	if _, idx := route(nd.mapping, v); !x.spanOK(nd, 1, idx, idx) || !nd.model.FitsAfter(float64(k), 0) {
+		return
+	}
+	sig := "marathon/" + mode
+	acc := copySk(nd.real).(*ddsketch.DDSketchWithExactSummaryStatistics)
+	prov := providerFor(nd.spec.Store, nd.spec.N)
+	for i := 0; i < k; i++ {
+		switch mode {
+		case "copy":
+			x.lib("Copy", sig, func() { acc = acc.Copy() })
+		case "wire":
+			var b []byte
+			x.lib("Encode", sig, func() { acc.Encode(&b, false) })
+			x.lib("Decode", sig, func() {
+				d, err := ddsketch.DecodeDDSketchWithExactSummaryStatistics(b, prov, nil)
+				if err != nil {
+					x.fail("accepts-valid", sig, "decoding a valid encoding failed: "+err.Error(), "nil error", err.Error())
+				}
+				acc = d
+			})
+		case "merge":
+			t := ddsketch.NewDDSketchWithExactSummaryStatistics(nd.mapping, prov)
+			x.lib("Add", sig, func() { t.Add(v) })
+			x.lib("MergeWith", sig, func() {
+				if err := acc.MergeWith(t); err != nil {
+					x.fail("accepts-valid", sig, "merging sketches with equal mappings was refused: "+err.Error(), "accepted", err.Error())
+				}
+			})
+			continue
+		default:
+			return
+		}
+		x.lib("Add", sig, func() {
+			if err := acc.Add(v); err != nil {
+				x.fail("accepts-valid", sig, "a valid value was refused: "+err.Error(), "accepted", err.Error())
+			}
+		})
+	}
+	x.st.Probe("marathon-" + mode)
+	es, ea := nd.model.ExactSum()
+	kv := new(big.Float).SetPrec(2400).SetFloat64(v)
+	kv.Mul(kv, new(big.Float).SetPrec(2400).SetInt64(int64(k)))
+	es.Add(es, kv)
+	ea.Add(ea, kv)
+	want, _ := es.Float64()
+	tol, _ := new(big.Float).Mul(ea, big.NewFloat(32*0x1p-53)).Float64()
+	x.st.Oracle("sum")
+	if got := acc.GetSum(); math.Abs(got-want) > tol+1e-290 || math.IsNaN(got) {
+		x.fail("sum", sig, fmt.Sprintf("after %d steps of (%s, Add(%v)) the exact sum is further from the true sum than a few ulps of the total of |value*weight|", k, mode, v), fmt.Sprintf("%v +- %v", want, tol), fmt.Sprint(got))
+	}
+	x.st.Oracle("count")
+	if got, wantC := acc.GetCount(), nd.model.Count()+float64(k); got != wantC {
+		x.fail("count", sig, fmt.Sprintf("after %d steps of (%s, Add) the exact count is wrong", k, mode), fmt.Sprint(wantC), fmt.Sprint(got))
+	}
+	lo, hi, any := nd.model.TrueMinMax()
+	if !any || v < lo {
+		lo = v
+	}
+	if !any || v > hi {
+		hi = v
+	}
+	x.st.Oracle("min-max")
+	mn, e1 := acc.GetMinValue()
+	mx, e2 := acc.GetMaxValue()
+	if e1 != nil || e2 != nil || mn != lo || mx != hi {
+		x.fail("min-max", sig, "exact minimum/maximum differ from the true extremes after the chain", fmt.Sprintf("min=%v max=%v", lo, hi), fmt.Sprintf("min=%v(err=%v) max=%v(err=%v)", mn, e1, mx, e2))
+	}
 }
 
 // badmerge N M : node N is asked to merge node M, whose mapping clearly differs. The
